@@ -1,4 +1,5 @@
 import KeepVerif.Model.C12
+import KeepVerif.Gen.C12
 /-!
 # C12 — Protocol messages are only accepted from the member index the sender controls
 
@@ -266,6 +267,168 @@ theorem holdsMv_model (ops : List Nat) (idx : UInt8) (a : Nat) :
   · simp only [hn, if_false]
     rw [valid_membership_eq_controls _ _ _ (by omega)]
     cases controls ops idx a <;> rfl
+
+/-! ## Facts regenerated from the source (T1): `group.MaxMemberIndex`, the width of `group.MemberIndex`,
+and the two wrap-arounds the model relies on, measured by a compiled probe. -/
+
+/-- The `UInt8` model of `MemberIndex` matches the compiled type: 8 bits, maximum 255,
+    `MemberIndex(0) - 1 = 255`, `MemberIndex(255) + 1 = 0`. -/
+theorem facts_tie :
+    Gen.C12.maxMemberIndex = 255 ∧ Gen.C12.memberIndexBits = 8 ∧
+    Gen.C12.zeroMinusOne = ((0 : UInt8) - 1).toNat ∧ Gen.C12.maxPlusOne = ((255 : UInt8) + 1).toNat := by
+  decide
+
+/-- `valid_membership_iff` stated over the regenerated bound: every group that `MemberIndex` can
+    address (`n ≤ group.MaxMemberIndex`). -/
+theorem valid_membership_iff_gen (ops : List Nat) (idx : UInt8) (a : Nat)
+    (hn : ops.length ≤ Gen.C12.maxMemberIndex) :
+    isValidMembership ops idx a = true ↔
+      1 ≤ idx.toNat ∧ idx.toNat ≤ ops.length ∧ ops[idx.toNat - 1]? = some a :=
+  valid_membership_iff ops idx a (by have := facts_tie.1; omega)
+
+/-! ## One announcement window / one follower routine over a whole history -/
+
+
+theorem mem_insertSorted (x : UInt8) (l : List UInt8) (y : UInt8) :
+    y ∈ insertSorted x l ↔ y = x ∨ y ∈ l := by
+  induction l with
+  | nil => simp [insertSorted]
+  | cons a as ih =>
+    unfold insertSorted
+    split
+    · simp
+    · split
+      · rename_i h; subst h; simp
+      · simp only [List.mem_cons, ih]
+        constructor
+        · rintro (h | h | h)
+          · exact Or.inr (Or.inl h)
+          · exact Or.inl h
+          · exact Or.inr (Or.inr h)
+        · rintro (h | h | h)
+          · exact Or.inr (Or.inl h)
+          · exact Or.inl h
+          · exact Or.inr (Or.inr h)
+
+theorem mem_sortDedup (l : List UInt8) (y : UInt8) : y ∈ sortDedup l ↔ y ∈ l := by
+  induction l with
+  | nil => simp [sortDedup]
+  | cons a as ih =>
+    simp only [sortDedup, List.foldr_cons, List.mem_cons] at ih ⊢
+    rw [mem_insertSorted, ih]
+
+/-- `ready_sound`: in ONE announcement window with any history of announcements (same key announcing
+    several indices, valid ones before invalid ones, duplicates, interleaved senders), every index
+    reported ready other than the member's own was announced by a message of that window whose
+    authenticated key passes the membership check for exactly that index, with the window's protocol and
+    session.  Earlier messages never influence the admission of later ones. -/
+theorem ready_sound (addr : Nat → Nat) (c : Ctx) (ms : List Msg) (i : UInt8)
+    (h : i ∈ readyList addr c ms) (hne : i ≠ selfIdx c) :
+    ∃ m ∈ ms, m.idx = i ∧ isValidMembership c.ops m.idx (addr m.netKey) = true ∧
+      (c.ops.length ≤ 255 → controls c.ops m.idx (addr m.netKey) = true) ∧
+      m.aux1 = c.aux1 ∧ m.session = c.session := by
+  unfold readyList at h
+  rw [mem_sortDedup] at h
+  simp only [List.mem_cons, List.mem_map, List.mem_filter, beq_iff_eq] at h
+  rcases h with h | ⟨m, ⟨hm, hs⟩, rfl⟩
+  · exact absurd h hne
+  · have hA : acted (admitMsg addr .announcer c m) = true := by rw [hs]; decide
+    have hv := admit_uniform addr .announcer c m hA
+    refine ⟨m, hm, rfl, hv, fun hn => by rw [← valid_membership_eq_controls _ _ _ hn]; exact hv, ?_⟩
+    simp only [admitMsg, ofBool] at hs
+    split at hs
+    · rename_i hc; simp at hc; exact ⟨hc.1.2, hc.2⟩
+    · cases hs
+
+/-- the ready-list monitor accepts the model's ready list for every history -/
+theorem holdsReady_model (addr : Nat → Nat) (c : Ctx) (ms : List Msg) :
+    holdsReady addr c ms (readyList addr c ms) = true := by
+  unfold holdsReady
+  rw [Bool.and_eq_true]
+  constructor
+  · rw [List.contains_iff_mem]; unfold readyList; rw [mem_sortDedup]; simp
+  · rw [List.all_eq_true]
+    intro i hi
+    by_cases hs : i = selfIdx c
+    · simp [hs]
+    · unfold readyList at hi
+      rw [mem_sortDedup] at hi
+      simp only [List.mem_cons, List.mem_map, List.mem_filter, beq_iff_eq] at hi
+      rcases hi with hi | ⟨m, ⟨hm, hst⟩, rfl⟩
+      · exact absurd hi hs
+      · simp only [Bool.or_eq_true, beq_iff_eq, hs, false_or, List.any_eq_true, Bool.and_eq_true]
+        exact ⟨m, hm, rfl, by have := admit_implies_controls addr .announcer c m; rwa [hst] at this⟩
+
+theorem followerTrace_spec (addr : Nat → Nat) (c : Ctx) (ms : List Msg) (start : Nat)
+    (o : Outcome) (pos : Nat) (h : (o, pos) ∈ followerTrace addr c ms start) :
+    start ≤ pos ∧ ∃ m, ms[pos - start]? = some m ∧ admitMsg addr .follower c m = o ∧ o ≠ .dropped := by
+  induction ms generalizing start with
+  | nil => simp [followerTrace] at h
+  | cons m ms ih =>
+    have shift : ∀ {p}, start + 1 ≤ p → (m :: ms)[p - start]? = ms[p - (start + 1)]? := by
+      intro p hp
+      have : p - start = (p - (start + 1)) + 1 := by omega
+      rw [this]; simp
+    unfold followerTrace at h
+    split at h
+    · obtain ⟨h1, x, h2, h3⟩ := ih _ h
+      exact ⟨by omega, x, by rw [shift h1]; exact h2, h3⟩
+    · rename_i hs
+      simp only [List.mem_singleton, Prod.mk.injEq] at h
+      obtain ⟨rfl, rfl⟩ := h
+      exact ⟨Nat.le_refl _, m, by simp, hs, by decide⟩
+    · rename_i o' hnd hns
+      simp only [List.mem_cons, Prod.mk.injEq] at h
+      rcases h with ⟨rfl, rfl⟩ | h
+      · exact ⟨Nat.le_refl _, m, by simp, rfl, hnd⟩
+      · obtain ⟨h1, x, h2, h3⟩ := ih _ h
+        exact ⟨by omega, x, by rw [shift h1]; exact h2, h3⟩
+
+/-- `follower_trace_sound`: in ONE follower routine over any history, every fault raised and the
+    proposal returned stem from a message whose authenticated sender controls the claimed seat (same
+    window, same wallet); the returned proposal comes from the leader's own seat with an allowed
+    action. -/
+theorem follower_trace_sound (addr : Nat → Nat) (c : Ctx) (ms : List Msg) (o : Outcome) (pos : Nat)
+    (h : (o, pos) ∈ followerTrace addr c ms 0) :
+    ∃ m, ms[pos]? = some m ∧ holds addr .follower c m o = true ∧
+      isValidMembership c.ops m.idx (addr m.netKey) = true ∧ m.idx ∉ c.selfs := by
+  obtain ⟨_, m, hm, ha, hnd⟩ := followerTrace_spec addr c ms 0 o pos h
+  have hA : acted (admitMsg addr .follower c m) = true := by
+    rw [ha]; cases o <;> first | rfl | exact absurd rfl hnd
+  refine ⟨m, by simpa using hm, by have := admit_implies_controls addr .follower c m; rwa [ha] at this,
+    admit_uniform addr .follower c m hA, ?_⟩
+  intro hin
+  simp only [admitMsg] at ha
+  rw [if_pos (List.contains_iff_mem.2 hin)] at ha
+  exact hnd ha.symm
+
+/-- the follower monitor accepts the model's run on every history -/
+theorem holdsTrace_model (addr : Nat → Nat) (c : Ctx) (ms : List Msg) :
+    holdsTrace addr c ms (traceFaults (followerTrace addr c ms 0))
+      (traceAccepted (followerTrace addr c ms 0)) = true := by
+  unfold holdsTrace
+  rw [Bool.and_eq_true]
+  constructor
+  · rw [List.all_eq_true]
+    intro o ho
+    simp only [traceFaults, List.mem_map, List.mem_filter] at ho
+    obtain ⟨⟨o', pos⟩, ⟨hmem, hns⟩, rfl⟩ := ho
+    obtain ⟨m, hm, hh, _, _⟩ := follower_trace_sound addr c ms o' pos hmem
+    obtain ⟨_, _, _, _, hnd⟩ := followerTrace_spec addr c ms 0 o' pos hmem
+    rw [Bool.and_eq_true]
+    constructor
+    · cases o' <;> simp_all
+    · rw [List.any_eq_true]
+      exact ⟨m, List.mem_of_getElem? hm, hh⟩
+  · cases hf : (followerTrace addr c ms 0).find? (fun e => e.1 == .stored) with
+    | none => simp [traceAccepted, hf]
+    | some e =>
+      obtain ⟨o, pos⟩ := e
+      have hmem := List.mem_of_find?_eq_some hf
+      have ho : o = .stored := by simpa using List.find?_some hf
+      subst ho
+      obtain ⟨m, hm, hh, _, _⟩ := follower_trace_sound addr c ms _ pos hmem
+      simp [traceAccepted, hf, hm, hh]
 
 /-! ## Non-vacuity and monitor sanity -/
 
